@@ -223,6 +223,9 @@ func genActivity(r *simcore.RNG) simcore.Step {
 func (Engine) Generate(r *simcore.RNG, tier string, idx int) *simcore.Plan {
 	p := &simcore.Plan{Config: map[string]int64{}}
 	faults := idx%2 == 1
+	if idx%4 == 3 {
+		p.Config["spec"] = 60 + int64(idx/4%5)*60 // permille of blocks first executed speculatively on a discarded branch (simchain.Node.Spec)
+	}
 	p.Config["accts"] = r.Range(3, 5)
 	p.Config["denoms"] = r.Range(4, 5)
 	p.Config["dtf"] = int64(r.Weighted([]int{3, 4, 2}))
@@ -447,6 +450,12 @@ func (Engine) Execute(run *simcore.Run) {
 		mg.Minter.EpochProvisions = osmomath.ZeroDec()
 		gs[minttypes.ModuleName] = cdc.MustMarshalJSON(&mg)
 	}})
+	n.Spec = run.Plan.Cfg("spec", 0)
+	defer func() {
+		for i := 0; i < n.Specs; i++ {
+			run.Fault("speculative-block-discarded")
+		}
+	}()
 	w := &world{run: run, n: n, nacct: nacct, denoms: denoms, labels: map[string]string{}, refFee: map[string]string{}, refDefault: dtf}
 	for i, a := range n.Accts {
 		w.labels[a.String()] = fmt.Sprintf("account %d", i)
